@@ -25,6 +25,7 @@ pub fn classify(rep: &mut CaseReport, f: &SynthFont) {
     rep.class(format!("axes={}", f.axes.len()));
     rep.class(format!("full-masters={}", f.full_sources().count().min(6)));
     if f.sources.iter().any(|s| s.layer.is_some()) { rep.class("has-layer-source"); }
+    if f.sources.iter().any(|s| s.name.starts_with("plateau_")) { rep.class("one-ufo-serving-two-sources"); }
     let n_full = f.full_sources().count();
     if f.glyphs.iter().any(|g| g.sources.keys().filter(|k| f.sources[**k].layer.is_none()).count() < n_full) { rep.class("has-sparse-glyph"); }
     if f.glyphs.iter().any(|g| f.has_components(&g.name)) { rep.class("has-composite"); }
